@@ -270,7 +270,9 @@ class GRUnit(Operation):
         r = self._r
         h = self._h
 
-        dLds = grad[1:].astype(self.type, copy=False)
+        # `dLds` is accumulated in-place during back-propagation through time:
+        # it must not be a view of the incoming gradient (which may be caller-owned)
+        dLds = grad[1:].astype(self.type, copy=True)
 
         const = {"1 - h**2": d_tanh(h), "z*(1 - z)": d_sig(z), "r*(1 - r)": d_sig(r)}
 
